@@ -3,7 +3,7 @@
 #include "corpus.h"
 
 static inline std::vector<Str> resolve_bases(bool with_relative) {
-    static const char *auth[] = { 0, "//h", "//", "//u@h:1", "//[::1]", "//1.2.3.4" };
+    static const char *auth[] = { 0, "//h", "//", "//u@h:1", "//[::1]", "//1.2.3.4", "//[vF.b]" };
     static const char *path[] = { "", "/", "/a", "/a/", "/a/b", "/a//", "//a", "a", "a/b", "a/", "/.", "/a/.." };
     static const char *query[] = { 0, "?bq" };
     std::vector<Str> v; std::set<Str> seen;
@@ -20,7 +20,7 @@ static inline std::vector<Str> dot_tokens() { return { "", ".", "..", "a", "b", 
 
 // references: scheme x authority x path-token sequences (<= n) x query x fragment
 static inline std::vector<Str> resolve_refs(int n, bool rich = true) {
-    std::vector<const char *> scheme = { 0, "s:", "S:", "t:", "sx:" /* the base scheme "s" is a proper prefix of it */ }, auth = { 0, "//g", "//", "//@" }, query = { 0, "?", "?q" }, frag = { 0, "#", "#f" };
+    std::vector<const char *> scheme = { 0, "s:", "S:", "t:", "sx:" /* the base scheme "s" is a proper prefix of it */ }, auth = { 0, "//g", "//", "//@", "//[1::2]", "//1.2.3.4", "//u@[v1.a]:1" }, query = { 0, "?", "?q" }, frag = { 0, "#", "#f" };
     if (!rich) { scheme = { 0, "s:" }; auth = { 0, "//h" }; query = { 0, "?q" }; frag = { 0, "#f" }; }
     std::vector<Str> paths = path_token_paths(dot_tokens(), n, 0), ap = path_token_paths(dot_tokens(), n, 1);
     paths.insert(paths.end(), ap.begin(), ap.end());
